@@ -15,13 +15,13 @@ CONSTANTS
   MaxCmds = 2
   MaxCur = 2
   MaxCps = 2
-  MaxTotCmds = 4
-  MaxTotUps = 5
+  MaxTotCmds = 3
+  MaxTotUps = 4
   MaxFUps = 0
   MaxIdx = 4
   NoErr = TRUE
   SimDepth = 0
-ACTION_CONSTRAINT EmitRev
+ACTION_CONSTRAINT EmitRevKey
 VIEW View
 INVARIANTS SegRefines MidRefines PerspRefines FactPerspRefines ChainOK PriorFactsOK
 PROPERTIES RevertExact
